@@ -174,6 +174,11 @@ typedef struct {
 } unit_t;
 
 static const cfg_t *C;
+/* 1: also compare ABT_thread_get_state of every unit and the pool sizes /
+ * blocked counts / members with the model (the C11 oracle).  c02_ctx switches
+ * it off: C02 is about contexts and about control going where the model says,
+ * not about the states the runtime reports. */
+static int check_c11_state = 1;
 static unit_t U[NU];
 static ABT_pool POOL[2];
 static ABT_xstream XS;
@@ -448,7 +453,7 @@ static void verify_world(int me, int op, int caller, int directed)
         "%s is executing but ABT_self_get_thread() returns another handle "
         "(after %s by %s)",
         uname(me), op_name[op], uname(caller));
-    for (int u = 0; u < NU; u++) {
+    for (int u = 0; u < NU && check_c11_state; u++) {
         if (U[u].st == ST_ABSENT || U[u].freed)
             continue;
         ABT_thread_state s;
@@ -488,7 +493,7 @@ static void verify_world(int me, int op, int caller, int directed)
                             op_name[op], uname(caller), uname(u), st_name(want),
                             st_name((int)s), uname(me));
     }
-    for (int p = 0; p < 2; p++) {
+    for (int p = 0; p < 2 && check_c11_state; p++) {
         size_t sz = 0, tot = 0;
         OK(ABT_pool_get_size(POOL[p], &sz));
         OK(ABT_pool_get_total_size(POOL[p], &tot));
@@ -1218,7 +1223,7 @@ static void c02_scenario(const cfg_t *cfgs, int cfg)
     /* ---- quiescence */
     CHK(!SW.active && repl_waiter < 0, "c02_harness", "switch in flight");
     verify_world(0, OP_JOIN, 0, 0);
-    for (int pp = 0; pp < 2; pp++) {
+    for (int pp = 0; pp < 2 && check_c11_state; pp++) {
         int nb = h_pool_blocked(POOL[pp]);
         CHK(nb == 0, "c11_blocked_count",
             "pool P%d reports %d blocked units at quiescence", pp, nb);
